@@ -172,6 +172,40 @@ def _cmake_chunk(chunk):
     return len(chunk) * len(CCONFS) * 2, nt, fails
 
 
+def ref_cmakedefine(line, conf):
+    """#cmakedefine VAR [tokens...] -> `/* #undef VAR */` when VAR is undefined or false-ish, else `#define VAR tokens` with each token
+    that names a variable replaced by its value; #cmakedefine01 VAR -> `#define VAR 0|1`"""
+    arr = line.strip()[1:].split()
+    var = arr[1]
+    if arr[0] == 'cmakedefine01':
+        return '#define %s %d\n' % (var, 1 if conf.get(var) else 0)
+    if not conf.get(var):
+        return '/* #undef %s */\n' % var
+    toks = [str(conf[t]) if t in conf else t for t in arr[2:]]
+    return ('#define %s %s' % (var, ' '.join(toks))).strip() + '\n'
+
+
+DEFCONFS = [{}, {'V': 'text', 'ON': True, 'OFF': False, 'N': 3, 'Z': 0, 'E': ''}]
+
+
+def _cmakedefine_chunk(chunk):
+    from mesonbuild.utils.universal import do_conf_str
+    fails, nt = [], 0
+    for line in chunk:
+        for ci, conf in enumerate(DEFCONFS):
+            for fmt in ('cmake', 'cmake@'):
+                exp = ref_cmakedefine(line, conf)
+                nt += 1
+                try:
+                    res, _gm, _ = do_conf_str('src', [line], CD(conf), fmt)
+                except Exception as ex:
+                    fails.append({'case': {'line': line, 'conf': ci, 'format': fmt}, 'stage': 'cmakedefine', 'detail': f'{type(ex).__name__}: {ex}'})
+                    continue
+                if res != [exp]:
+                    fails.append({'case': {'line': line, 'conf': ci, 'format': fmt}, 'stage': 'cmakedefine', 'detail': f'output {res!r}, reference {[exp]!r}'})
+    return len(chunk) * len(DEFCONFS) * 2, nt, fails
+
+
 def spec_define(line, conf):
     """#mesondefine VAR: unset -> undef comment; bool -> #define / #undef; int -> #define V n; str -> #define V s, the value copied verbatim"""
     arr = line.split()
@@ -257,6 +291,11 @@ def run(REG, tier, seed, jobs):
     ev, nt, fails = pmap(_header_chunk, chunked(iter(sets), 200), jobs)
     parts.append({'name': 'C14/bounded/generated-header-sorted-keys-once', 'function': '_dump_c_header', 'bound': f'{len(sets)} configuration data sets (insertion orders, value types) x 3 output formats',
                   'evaluations': ev, 'distinct_nontrivial': nt, 'rule': 'every case is distinct', 'exhaustive': tier != 'quick', 'failures': fails})
+    dl = [f'{ind}#{sp}{kw} {var}{rest}\n' for ind in ('', '  ') for sp in ('', ' ') for kw in ('cmakedefine', 'cmakedefine01') for var in ('V', 'ON', 'OFF', 'N', 'Z', 'E', 'U')
+          for rest in (('', ' 1', ' V', ' N x', ' "q"') if kw == 'cmakedefine' else ('',))]
+    ev, nt, fails = pmap(_cmakedefine_chunk, chunked(iter(dl), 40), jobs)
+    parts.append({'name': 'C14/bounded/cmakedefine-rendering', 'function': 'do_define_cmake', 'bound': f'{len(dl)} #cmakedefine / #cmakedefine01 line forms (indentation, blank after #, values string / true / false / int / 0 / empty / undefined, trailing tokens) x {len(DEFCONFS)} configurations x 2 formats',
+                  'evaluations': ev, 'distinct_nontrivial': nt, 'rule': 'every line', 'exhaustive': True, 'failures': fails})
     calpha = ['@', 'A', 'b', ',', ' ', '${', '}', '-', 'T', '\\', 'v']
     cn = 4 if tier == 'quick' else 5
     ctempl = (''.join(t) for k in range(cn + 1) for t in itertools.product(calpha, repeat=k))
